@@ -121,6 +121,10 @@ def standard_variables(kinds: dict, time_dim: str, depth_dim: str, sizes: dict, 
         base += 5000
     if ints:
         add('flag', default_kind, 80000, (time_dim,) + g, 'int32', attrs={'long_name': 'int without fill'})
+        add('flag_fv', default_kind, 82000, g + (time_dim,), 'int32',
+            attrs={'long_name': 'int with _FillValue', '_FillValue': np.int32(-9999)})
+        add('flag_mv', default_kind, 84000, (time_dim,) + g, 'int32',
+            attrs={'long_name': 'int with missing_value', 'missing_value': np.int32(-8888)})
     data_vars['tser'] = xr.DataArray(
         900.0 + shift + np.arange(sizes[time_dim]), dims=[time_dim], name='tser',
         attrs={'long_name': 'time series on no grid'})
